@@ -175,6 +175,19 @@ def run(pid, tier, selftest, assumptions):
             docs.append((a2mlgen.document(a2mlgen.render(decls), blocks), False))
             meta.append({"e": "ifdata-described", "pat": {"fam": "ifdata-described", "cmt": f"{per_line} per line"}, "file_level_comment": False})
     a2mlgen.PER_LINE[0] = 6
+    if pid in ("C01", "C02", "C05"):
+        # the raw A2ML text with every kind of head behind /begin A2ML (tab, blank, line break) and with comments that hold
+        # /end, /begin or an unbalanced comment opener
+        decl = 'block "IF_DATA" taggedunion { "X" struct { uint; }; };'
+        for name, body in (("head-tab", "\t" + decl + "\n    "), ("head-blank", " " + decl + "\n    "), ("head-two-tabs-line", "\t\t\n      " + decl + "\n    "),
+                           ("line-comment-end", "\n      // closed by /end of the union\n      " + decl + "\n    "),
+                           ("line-comment-opener", "\n      " + decl + " // an unbalanced /* in a line comment\n    "),
+                           ("block-comment-end", "\n      /* /end A2ML inside a comment */\n      " + decl + "\n    "),
+                           ("line-comment-begin-last", "\n      " + decl + "\n      // /begin X /end X\n    ")):
+            for crlf in (False, True):
+                t = a2mlgen.document(body, [("MODULE", ["X", "7"]), ("MEASUREMENT", ["X", "0x10"])])
+                docs.append((t.replace("\n", "\r\n") if crlf else t, False))
+                meta.append({"e": "a2ml-head", "pat": {"fam": "a2ml-head", "cmt": name + ("/crlf" if crlf else "")}, "file_level_comment": False})
     if pid == "C01":
         # the raw A2ML text with every kind of tail in front of /end A2ML (blank lines, blanks, no line break, CRLF)
         body = '\n      block "IF_DATA" taggedunion { "X" struct { uint; }; };'
